@@ -89,10 +89,13 @@ func (r *TrafficRoutingReconciler) Reconcile(ctx context.Context, req ctrl.Reque
 	}
 	klog.Infof("Begin to reconcile TrafficRouting %v", util.DumpJSON(tr))
 
-	// handle finalizer
-	err = r.handleFinalizer(tr)
-	if err != nil {
-		return ctrl.Result{}, err
+	// handle finalizer: register it here; for a deleting object it is removed
+	// only after FinalisingTrafficRouting is done (Terminating phase below)
+	if tr.DeletionTimestamp.IsZero() {
+		err = r.handleFinalizer(tr)
+		if err != nil {
+			return ctrl.Result{}, err
+		}
 	}
 	newStatus := tr.Status.DeepCopy()
 	if newStatus.Phase == "" {
